@@ -5,6 +5,15 @@ ALL = ["C%02d" % i for i in range(1, 21)]
 
 # id -> (level text, level note, technique)
 CLAIMED = {
+ "C13": ("Map semantics, canonical roots, iteration order, reference counting and proof soundness are value properties and are NOT decided. Decided (package trie): (T1) persistent-structure discipline — every store to fullNode.Children[i], shortNode.Key, shortNode.Val writes into a node created in the same function (literal, new, copy()), never a parameter, type-asserted input or loaded node, because nodes are shared with copied tries and the node cache; (T2) in insert/delete every content store on a copied node goes with flags = t.newFlag() on that node on the same paths; (T3) Commit hashes with the database before bumping cachegen, hashRoot hashes t.root.",
+         "Trusted: go/types + go/ssa; copy() returns a fresh shallow copy.",
+         "ownership analysis of node stores (base-value provenance) + always-with pairing of dirty flags"),
+ "C15": ("Opcode arithmetic, dynamic gas and memory/storage read-back are value properties and are NOT decided. Decided (core/vm): (X1) the Istanbul jump table, evaluated from the syntax of the layered constructors, equals the checker's EVM reference table for handler, arity, constant gas of all computational opcodes, arity of all opcodes, and the exact writes-flag set; (X2) every non-closure handler changes the stack height by pushes-pops on every nil-error path and touches no item deeper than its pops (dataflow over the handler CFG); (X3) integer-pool typestate: values put are owned, off-stack, unused afterwards and put once, values pushed are owned (never a state/contract/context *big.Int); (X4) range-escaping big.Int results that stay on the stack pass math.U256.",
+         "Trusted: go/types + go/ssa + the reference table in ycheck/rules_c15.go (EVM specification, Istanbul); big.Int methods return their receiver.",
+         "abstract evaluation of the jump-table constructors, stack-height dataflow, alias-class typestate for the integer pool"),
+ "C16": ("Equality of dumps and total-balance arithmetic are value properties and are NOT decided. Decided (core/vm, core): (F1) per frame function the snapshot dominates every frame mutation, every path from run with a possibly non-nil error passes RevertToSnapshot of that snapshot and burns gas unless errExecutionReverted, early refusals return the gas unchanged, leftover is contract.Gas; (F2) StaticCall runs read-only, the interpreter refuses writes and CALL-with-value before execute when read-only, readOnly is cleared only by the frame that set it; (F3) balances move only in Transfer (debit = credit) and opSuicide (credit with Suicide), transfers dominated by CanTransfer on the same sender/value; (F4) Contract.Gas grows only by callee leftovers.",
+         "Trusted: go/types + go/ssa; RevertToSnapshot restores (C09); jump-table writes flags (C15.X1).",
+         "dominance and all-paths analyses on the five frame functions, write-protection gate in the interpreter loop, balance-movement confinement"),
  "C11": ("Crash-point enumeration and post-restart equivalence are history properties and are NOT decided. Decided (package core): (H1) in WriteBlockWithState the head moves only after WriteBlock, state.Commit==nil, TrieDB().Commit for all three roots returned by that commit, and batch.Write==nil; canonical hash before head marker; (H2) tabled writers of the persistent canonical/head markers and tabled callers of insert/updateHeadBlock/WriteBlockWithState; (H3) in insertChain the write is dominated by the header-verification receive, Process==nil, ValidateState==nil, and every feasible path (path-sensitive enumeration within one iteration) from the receive to Process passes ValidateBody or the dead ErrUnknownParentState case; (H4) side chains written only after verifyAllSideChainBlocks==nil, whose checks cannot fail into a nil return.",
          "Trusted: go/types + go/ssa; rawdb writers durable when they return.",
          "dominance gates on write ordering, value-flow of the three roots, who-may-call confinement, path-sensitive enumeration of one loop iteration, failure-edge reachability"),
